@@ -1,6 +1,8 @@
+#![allow(dead_code)]
 //! vmon: runtime-monitoring workers for the SimpleSL properties.
 //! usage: vmon <PROP> --tier quick|thorough --seed N --shard I --nshards N --out FILE [--budget S] [--replay FILE] [--opt k=v]
 //!        vmon merge-distinct FILE...
+mod oracle;
 mod props;
 mod real;
 mod util;
@@ -104,6 +106,7 @@ fn main() {
 fn dispatch(cfg: &Cfg, rep: &mut Report) {
     match cfg.prop.as_str() {
         "C08" => props::c08::run(cfg, rep),
+        "C09" => props::c09::run(cfg, rep),
         other => {
             eprintln!("unknown property {other}");
             std::process::exit(2);
@@ -115,6 +118,7 @@ fn dispatch_replay(cfg: &Cfg, kind: &str, payload: &str, rep: &mut Report) {
     let _ = kind;
     match cfg.prop.as_str() {
         "C08" => props::c08::replay(payload, rep),
+        "C09" => props::c09::replay(payload, rep),
         other => {
             eprintln!("unknown property {other}");
             std::process::exit(2);
